@@ -195,7 +195,8 @@ def run(chk, repo: Repo):
     so = repo.cls(f"{OP}:SecondOrderFiniteDifference")
     t1 = _bc_table(repo.method(fo, "_create_diff_matrix")[1])
     t2 = _bc_table(so.methods["_create_diff_matrix"]) if "_create_diff_matrix" in so.methods else {}
-    ginit = repo.method(gm, "__init__")[1]
+    ginit_src = repo.method(gm, "__init__")[1]
+    ginit = canon_fn(repo, gm, ginit_src, 2)          # private helpers the constructor is split into (factorisation, node count) are inlined
     gg = CFG(ginit)
     accepted: Set[str] = set()
     for tt in gg.tests():
@@ -233,11 +234,22 @@ def run(chk, repo: Repo):
     kcp = KwCanon().add("PrecisionFiniteDifference", repo.method(pf, "__init__")[1])
     for fld, want, msg, stop_ in (("self._prec_op", "PrecisionFiniteDifference(num_nodes=num_nodes,bc_type=bc_type,order=order)", "precision operator built from (num_nodes, bc_type, order)", {"num_nodes"}),
                                   ("self._diff_op", "self._prec_op._diff_op", "difference operator is the precision operator's own", {"self._prec_op"})):
-        got = assigned_values(repo, gm, ginit, fld, stop=frozenset(stop_), kc=kcp)
-        if got != [expected_text(want, kcp)]:
+        got = assigned_values(repo, gm, ginit_src, fld, stop=frozenset(stop_), kc=kcp)
+        okf = got == [expected_text(want, kcp)]
+        if not okf and fld == "self._prec_op" and len(got) == 1:
+            # the node count may come from a helper / local: what must hold is that boundary condition and order are the constructor's own and the
+            # node count is computed from the field's size
+            try:
+                c_ = ast.parse(got[0], mode="eval").body
+                kw_ = {k_.arg: pn(k_.value) for k_ in c_.keywords} if isinstance(c_, ast.Call) and call_name(c_) == "PrecisionFiniteDifference" and not c_.args else {}
+            except SyntaxError:
+                kw_ = {}
+            nn_ = kw_.get("num_nodes", "")
+            okf = kw_.get("bc_type") == "bc_type" and kw_.get("order") == "order" and ("self.dim" in nn_ or "num_nodes" in nn_ or "_num_nodes" in nn_)
+        if not okf:
             problems.append(f"{msg} (`{fld}` is {got})")
     # every value stored in the factor / log-determinant / eigenvalue fields, with temporaries and one-line helpers resolved
-    exg = Expander(canon_fn(repo, gm, ginit, 2))
+    exg = Expander(ginit)
     STOP = frozenset({"self._chol", "self._L_eigval", "self._rank", "self.dim", "self._prec_op"})
     P = ("self._prec_op", "self._prec_op.get_matrix()")
     JIT = ("np.sqrt(np.finfo(float).eps)",)
@@ -269,7 +281,11 @@ def run(chk, repo: Repo):
             from .common import cases_reaching, OTHER
             lits = [c for c in cases_reaching(gg, n, "bc_type") if c is not OTHER]
             v = _norm(n.ast.value)
-            off = {o_: _rank_offset(n.ast.value, o_) for o_ in (1, 2)}        # rank - dim for each operator order (integer arithmetic, max/min folded)
+            try:
+                rv_ = exg.expand(n.ast.value, exg.cfg.node_of(n.ast), stop=frozenset({"self.dim"}))       # a local alias of self.dim is resolved
+            except Exception:
+                rv_ = n.ast.value
+            off = {o_: _rank_offset(rv_, o_) for o_ in (1, 2)}        # rank - dim for each operator order (integer arithmetic, max/min folded)
             ranks.append((n, lits, off, v))
     if not ranks:
         raise AnchorError("GMRF.__init__: rank assignments not found")
